@@ -248,3 +248,16 @@ Theorem wl_never_splits_orbit g s inb outb n_iter : wf g -> is_aut g s ->
 Proof.
   intros Hw Hs. apply wl_cells_aut; auto. apply is_aut_is_autA; auto. repeat constructor; discriminate.
 Qed.
+
+(** the approximate orbits are unions of exact ones: two nodes that the canonicaliser reports in one orbit set have the same WL
+    colour (via C18_orbits: they are exchanged by a structure-preserving self-map) *)
+From SK Require Import proof.C18_Label proof.C18_Count proof.C18_Orbits proof.C18_OrbCanon.
+Theorem wl_coarser_than_orbits g lab p inb outb n_iter : wf g -> kinds_ok g -> arcs_ok g -> fst (canon_search g) = Some (lab, p) ->
+  forall c u v, In c (orbits_from_perms (min_leaves g)) -> In u c -> In v c -> In u (node_ids g) ->
+    col_get (wl_colors g [] [NKind] [ERole; EStoich] inb outb n_iter) u = col_get (wl_colors g [] [NKind] [ERole; EStoich] inb outb n_iter) v.
+Proof.
+  intros Hw Hk Ha Hb c u v Hc Hu Hv Hun.
+  destruct (proj1 (canon_orbits g lab p Hw Hk Ha Hb u v Hun)) as (s & Hs & <-); [exists c; auto|].
+  symmetry. apply (wl_colors_aut g [] [NKind] [ERole; EStoich] s Hw); auto.
+  apply is_aut_is_autA; auto. repeat constructor; discriminate.
+Qed.
